@@ -419,13 +419,15 @@ def judge(ctx, st, items, report=True):
         model_raw_pass(ctx, header, need_raw)
     meta, obs = run_children(ctx, items)
     reported = 0
+    deferred = []      # differences without a failing input: reported only when no failing input was found at all
 
     def viol(kind, payload, found):
         nonlocal reported
-        if found:
-            stats["nbad"] += 1
-        else:
+        if not found:
             stats["ndiff"] += 1
+            deferred.append((kind, payload))
+            return
+        stats["nbad"] += 1
         if report and reported < 3:
             reported += 1
             p = ctx.violation(kind, payload, found)
@@ -529,10 +531,14 @@ def judge(ctx, st, items, report=True):
                 if ended:
                     break
         # ---- correspondence of the compiled program (reported only when nothing else is wrong)
-        if it["corr"] == "DIFF" and lid.endswith(".0") and stats["nbad"] == 0:
+        if it["corr"] == "DIFF" and lid.endswith(".0"):
             viol("correspondence", dict(base_payload(it, idxs), stream="compile: model vs implementation (C08 policies)",
                                         model_result=it["model"][:2000], go_result=it["go"][:2000],
                                         what="the implementation's compiled program differs from the model's; no probe was found on which the kernel's answer violates the specification"), False)
+    if report and stats["nbad"] == 0:
+        for (kind, payload) in deferred[:3]:
+            p = ctx.violation(kind, payload, False)
+            rewrite_with_replay_cmd(ctx, p)
     return stats
 
 
